@@ -508,7 +508,9 @@ class VarsManager(object):
         head_list = []
         for name in name_list:
             for add_list in self.same_list:
-                if name not in self.variables:
+                if name not in self.variables and not (
+                    cplx and name + "r" in self.variables
+                ):
                     continue
                 if name in add_list:
                     tmp_list += add_list
@@ -544,11 +546,29 @@ class VarsManager(object):
             for name in name_list:
                 self.variables[name] = var
 
+        def repoint(names, head):
+            # the other members of an absorbed class must follow their head
+            # to the common storage, or they silently drop out of the tie
+            var = self.variables.get(head, None)
+            if var is None:
+                return
+            for name in names:
+                if name in self.variables:
+                    self.variables[name] = var
+
         if cplx:
             same_real([name + "r" for name in new_name_list])
             same_real([name + "i" for name in new_name_list])
+            if new_name_list:
+                for tail in ("r", "i"):
+                    repoint(
+                        [name + tail for name in name_list],
+                        new_name_list[0] + tail,
+                    )
         else:
             same_real(new_name_list)
+            if new_name_list:
+                repoint(name_list, new_name_list[0])
         self.same_list.append(name_list)
 
     def get(self, name, val_in_fit=True):
